@@ -48,12 +48,13 @@ structure RecSt where
   recorded : Nat → List Nat         -- ghost: everything passed to record(), per dataset, in call order
   pre      : Nat → List Nat         -- ghost: the part recorded before shutdown was requested
   late     : Nat → List Nat         -- ghost: the part recorded afterwards
+  want     : Nat → Attrs            -- ghost: per dataset, all set_attribute calls applied in call order (newest wins)
 
 def RecSt.init : RecSt :=
   { shared := fun _ => [], keys := [], sattrs := fun _ => none, loc := fun _ => [], locKeys := [],
     newA := fun _ => none, pendA := fun _ => none, file := fun _ => [], fattrs := fun _ => Attrs.empty,
     shutdown := false, quit := false, pc := .idle,
-    recorded := fun _ => [], pre := fun _ => [], late := fun _ => [] }
+    recorded := fun _ => [], pre := fun _ => [], late := fun _ => [], want := fun _ => Attrs.empty }
 
 inductive RecAct
   | record (d : Nat) (b : List Nat)
@@ -89,7 +90,8 @@ def recStep (s : RecSt) : RecAct → Option RecSt
       pre := if s.shutdown then s.pre else fupd s.pre d (s.pre d ++ b),
       late := if s.shutdown then fupd s.late d (s.late d ++ b) else s.late }
   | .setAttr d k v =>
-    some { s with sattrs := fupd s.sattrs d (some (((s.sattrs d).getD Attrs.empty).set k v)) }
+    some { s with sattrs := fupd s.sattrs d (some (((s.sattrs d).getD Attrs.empty).set k v)),
+                  want := fupd s.want d ((s.want d).set k v) }
   | .shutdown => some { s with shutdown := true }
   | .swap =>
     if s.pc = .idle ∧ (s.shutdown = true ∨ s.keys ≠ []) then
@@ -107,6 +109,11 @@ def recStep (s : RecSt) : RecAct → Option RecSt
         loc := fun _ => [], locKeys := [], newA := fun _ => none,
         pc := if s.quit then .done else .idle }
     else none
+
+/-- the attributes dataset `d` will have once everything queued has been written:
+file attributes, then the pending ones, then the writer's batch, then the hand-off queue (each a `dict.update`) -/
+def effAttrs (s : RecSt) (d : Nat) : Attrs :=
+  (((s.fattrs d).upd ((s.pendA d).getD Attrs.empty)).upd ((s.newA d).getD Attrs.empty)).upd ((s.sattrs d).getD Attrs.empty)
 
 /-- run an action list; `none` as soon as an action is not enabled -/
 def recRun (s : RecSt) : List RecAct → Option RecSt
